@@ -550,9 +550,9 @@ Qed.
 (* ---------- HTTPPolicySource behind a server that sends ETags ---------- *)
 Definition http := http_source true.
 
-(* the cached document belongs to the cached tag *)
+(* the remembered tag is the tag of a parsed document, and that document is the cached one *)
 Definition http_inv (st : hsrc) : Prop :=
-  forall d', h_etag st = Some (THttp (BDoc d')) -> h_cache st = Some d'.
+  forall t, h_etag st = Some t -> exists d', t = THttp (BDoc d') /\ h_cache st = Some d'.
 
 Lemma http_etag_eq st w :
   s_etag http st w = (st, SOk match h_etag st with Some t => RStr t | None => RNone end).
@@ -563,9 +563,30 @@ Proof.
   intro Hi. simpl. destruct (fail_load w); simpl; auto.
   destruct (store w) as [[b m]|]; simpl; auto.
   destruct (same_tag (h_etag st) (Some (THttp b))); simpl; auto.
-  destruct b as [d|k]; simpl.
-  - intros d' E. simpl in *. inversion E; subst. reflexivity.
-  - intros d' E. simpl in E. discriminate.
+  destruct b as [d|k]; simpl; auto.
+  intros t E. simpl in *. inversion E; subst. eauto.
+Qed.
+
+(* with that invariant load() returns nothing but the server's current document (this is what
+   commit e788bd5 repaired: before it a 304 could hand out an older cached policy, or {}) *)
+Lemma http_load_honest w st d : http_inv st -> snd (s_load http st w) = SOk d ->
+  exists m, store w = Some (BDoc d, m).
+Proof.
+  intro Hi. simpl. destruct (fail_load w); simpl; [discriminate|].
+  destruct (store w) as [[b m]|]; simpl; [|discriminate].
+  destruct (same_tag (h_etag st) (Some (THttp b))) eqn:E; simpl.
+  - apply same_tag_true in E. destruct E as (t & A & B). inversion B; subst.
+    destruct (Hi _ A) as (d' & Ed & Ec). inversion Ed; subst. rewrite Ec. intro X; inversion X; subst. eauto.
+  - destruct b as [d0|k]; simpl; [|discriminate]. intro X; inversion X; subst. eauto.
+Qed.
+
+(* an unparsable body (or 5xx, 404) leaves the source object exactly as it was *)
+Lemma http_failed_load_inert w st : snd (s_load http st w) = SErr -> fst (s_load http st w) = st.
+Proof.
+  simpl. destruct (fail_load w); simpl; auto.
+  destruct (store w) as [[b m]|]; simpl; auto.
+  destruct (same_tag (h_etag st) (Some (THttp b))); simpl; auto.
+  destruct (parse b); simpl; auto. discriminate.
 Qed.
 
 (* the class of F9: the reloader's stored tag equals the tag the source object remembers *)
@@ -619,7 +640,7 @@ Proof.
   intros ((m & Es) & _ & Fl) Hi. simpl. rewrite Fl, Es. simpl.
   destruct (same_tag (h_etag st) (Some (THttp (BDoc d)))) eqn:E; simpl.
   - apply same_tag_true in E. destruct E as (t & A & B). inversion B; subst.
-    rewrite (Hi d A). auto.
+    destruct (Hi _ A) as (d' & Ed & Ec). inversion Ed; subst. rewrite Ec. auto.
   - auto.
 Qed.
 
